@@ -8,16 +8,23 @@
    The OS scheduler is not modelled: a schedule is any sequence of enabled atomic actions (mq_run),
    and every theorem is quantified over all of them.
    [panics q = true] means that the operation panics on q; [no_panic panics W] says that no query
-   of the file does.  Without it the property fails (C15_worker_panic_blocks_refuted). *)
+   of the file does, [some_panic panics W] that one does.
+   [drop_tx] selects the system: true = the code after repair F10-multiquery-drop-sender (the main
+   thread drops its own Sender once the workers are spawned, so recv() fails and the main thread
+   panics with "All workers died unexpectedly." when every worker has exited or died and the
+   channel is empty); false = v0, the code before the repair (the main thread keeps its Sender:
+   finding K13, C15_worker_panic_blocks_refuted).  Theorems quantified over drop_tx hold for both;
+   C15_no_block, C15_worker_panic_propagates, C15_worker_panic_reaches_panic and C15_outcome are
+   about the repaired system (drop_tx = true) and need no hypothesis on panics. *)
 From Coq Require Import List ZArith Bool Permutation Sorted String.
 From DD Require Import Model.MultiQ Proofs.MultiQSort Proofs.MultiQ.
 Import ListNotations.
 
 (* Nothing lost, nothing duplicated: when the main thread has received |W| results, the collected
-   list (in arrival order) is a permutation of [(i, q_i, answer q_i)]. *)
-Theorem C15_collect : forall (R : Type) (answer : mq_query -> R) panics rcmp rshow W j tr s,
-  no_panic panics W ->
-  mq_run R answer panics rcmp rshow (mq_init R W j) tr s ->
+   list (in arrival order) is a permutation of [(i, q_i, answer q_i)].  (No hypothesis on panics:
+   a query on which the operation panics is never sent, so PCollect 0 is not reached then.) *)
+Theorem C15_collect : forall (R : Type) (answer : mq_query -> R) panics rcmp rshow drop_tx W j tr s,
+  mq_run R answer panics rcmp rshow drop_tx (mq_init R W j) tr s ->
   mq_main s = PCollect 0 ->
   Permutation (mq_results s) (mq_expected answer W).
 Proof. exact collect. Qed.
@@ -45,11 +52,12 @@ Proof. exact any_sort_output. Qed.
 Print Assumptions C15_any_correct_sort.
 
 (* Composition: whatever has been written in any reachable state, for every j (also j = 0, where
-   nothing is ever written unless W is empty) and every schedule, is the single-thread output. *)
-Theorem C15_byte_identical : forall (R : Type) (answer : mq_query -> R) panics rcmp rshow W j tr s out,
+   nothing is ever written unless W is empty) and every schedule, is the single-thread output.
+   An output with a missing, duplicated or misplaced line is never written, with or without
+   panicking queries (with one, nothing is ever written: C15_output_only_without_panic). *)
+Theorem C15_byte_identical : forall (R : Type) (answer : mq_query -> R) panics rcmp rshow drop_tx W j tr s out,
   mq_file_order W ->
-  no_panic panics W ->
-  mq_run R answer panics rcmp rshow (mq_init R W j) tr s ->
+  mq_run R answer panics rcmp rshow drop_tx (mq_init R W j) tr s ->
   mq_output s = Some out ->
   out = mq_render_single answer rshow W.
 Proof. exact byte_identical. Qed.
@@ -57,10 +65,9 @@ Print Assumptions C15_byte_identical.
 
 (* From the text of the query file: one work item per line of the file (empty lines included), and
    the output is the single-thread output of exactly these items. *)
-Theorem C15_file_byte_identical : forall (R : Type) (answer : mq_query -> R) panics rcmp rshow content W j tr s out,
+Theorem C15_file_byte_identical : forall (R : Type) (answer : mq_query -> R) panics rcmp rshow drop_tx content W j tr s out,
   mq_parse_file content = Some W ->
-  no_panic panics W ->
-  mq_run R answer panics rcmp rshow (mq_init R W j) tr s ->
+  mq_run R answer panics rcmp rshow drop_tx (mq_init R W j) tr s ->
   mq_output s = Some out ->
   out = mq_render_single answer rshow W
   /\ List.length W = List.length (mq_file_lines content).
@@ -72,61 +79,136 @@ Proof. exact mq_parse_lines_file_order. Qed.
 Print Assumptions C15_parse_file_order.
 
 (* The executable checker that validates the implementation's event logs is the step relation. *)
-Theorem C15_valid_event_step : forall (R : Type) (answer : mq_query -> R) panics rcmp rshow s e s',
-  mq_valid_event R answer panics rcmp rshow s e = Some s' <-> mq_step R answer panics rcmp rshow s e s'.
+Theorem C15_valid_event_step : forall (R : Type) (answer : mq_query -> R) panics rcmp rshow drop_tx s e s',
+  mq_valid_event R answer panics rcmp rshow drop_tx s e = Some s' <-> mq_step R answer panics rcmp rshow drop_tx s e s'.
 Proof. exact valid_event_step. Qed.
 Print Assumptions C15_valid_event_step.
 
-Theorem C15_replay_run : forall (R : Type) (answer : mq_query -> R) panics rcmp rshow tr s s',
-  mq_replay R answer panics rcmp rshow s tr = Some s' <-> mq_run R answer panics rcmp rshow s tr s'.
+Theorem C15_replay_run : forall (R : Type) (answer : mq_query -> R) panics rcmp rshow drop_tx tr s s',
+  mq_replay R answer panics rcmp rshow drop_tx s tr = Some s' <-> mq_run R answer panics rcmp rshow drop_tx s tr s'.
 Proof. exact replay_run. Qed.
 Print Assumptions C15_replay_run.
 
 (* Every run is finite: at most 3|W| + j + 2 atomic actions. *)
-Theorem C15_bounded : forall (R : Type) (answer : mq_query -> R) panics rcmp rshow W j tr s,
-  mq_run R answer panics rcmp rshow (mq_init R W j) tr s ->
+Theorem C15_bounded : forall (R : Type) (answer : mq_query -> R) panics rcmp rshow drop_tx W j tr s,
+  mq_run R answer panics rcmp rshow drop_tx (mq_init R W j) tr s ->
   List.length tr <= 3 * List.length W + j + 2.
 Proof. exact run_bounded. Qed.
 Print Assumptions C15_bounded.
 
 (* With at least one worker no reachable state is stuck before the function has returned ... *)
-Theorem C15_no_deadlock : forall (R : Type) (answer : mq_query -> R) panics rcmp rshow W j tr s,
+Theorem C15_no_deadlock : forall (R : Type) (answer : mq_query -> R) panics rcmp rshow drop_tx W j tr s,
   1 <= j ->
   no_panic panics W ->
-  mq_run R answer panics rcmp rshow (mq_init R W j) tr s ->
+  mq_run R answer panics rcmp rshow drop_tx (mq_init R W j) tr s ->
   (forall out, mq_main s <> PJoined out) ->
-  exists e s', mq_step R answer panics rcmp rshow s e s'.
+  exists e s', mq_step R answer panics rcmp rshow drop_tx s e s'.
 Proof. exact progress. Qed.
 Print Assumptions C15_no_deadlock.
 
 (* ... hence terminated runs exist for every W and j >= 1 (the hypotheses of C15_byte_identical are
    satisfiable for every input), and they return the single-thread bytes. *)
-Theorem C15_terminates : forall (R : Type) (answer : mq_query -> R) panics rcmp rshow W j,
+Theorem C15_terminates : forall (R : Type) (answer : mq_query -> R) panics rcmp rshow drop_tx W j,
   1 <= j -> mq_file_order W -> no_panic panics W ->
-  exists tr s, mq_run R answer panics rcmp rshow (mq_init R W j) tr s
+  exists tr s, mq_run R answer panics rcmp rshow drop_tx (mq_init R W j) tr s
                /\ mq_main s = PJoined (mq_render_single answer rshow W).
 Proof. exact terminates. Qed.
 Print Assumptions C15_terminates.
 
-(* The single-thread loop under the same hypothesis: it writes mq_render_single and returns. *)
+(* Under no_panic the main thread never panics (so the repair changes no run without panics:
+   "closed" and "join-dead" are never enabled). *)
+Theorem C15_no_panic_never_panics : forall (R : Type) (answer : mq_query -> R) panics rcmp rshow drop_tx W j tr s,
+  1 <= j ->
+  no_panic panics W ->
+  mq_run R answer panics rcmp rshow drop_tx (mq_init R W j) tr s ->
+  forall o, mq_main s <> PPanicked o.
+Proof. exact np_not_panicked. Qed.
+Print Assumptions C15_no_panic_never_panics.
+
+(* An output is written only if no query of the file makes the operation panic. *)
+Theorem C15_output_only_without_panic : forall (R : Type) (answer : mq_query -> R) panics rcmp rshow drop_tx W j tr s out,
+  mq_run R answer panics rcmp rshow drop_tx (mq_init R W j) tr s ->
+  mq_output s = Some out ->
+  no_panic panics W.
+Proof. exact output_no_panic. Qed.
+Print Assumptions C15_output_only_without_panic.
+
+(* ---------- the repaired system (drop_tx = true) ---------- *)
+
+(* Never blocked: EVERY state (reachable or not, any j including 0, any W, any panics) in which the
+   main thread has neither returned nor panicked has an enabled action.  Nothing remains: the only
+   states without an enabled action are final ones.  With C15_bounded: every run can be extended to
+   a final state and every maximal run ends in one. *)
+Theorem C15_no_block : forall (R : Type) (answer : mq_query -> R) panics rcmp rshow (s : mq_state R),
+  mq_final s = false ->
+  exists e s', mq_step R answer panics rcmp rshow true s e s'.
+Proof. exact no_block_fixed. Qed.
+Print Assumptions C15_no_block.
+
+(* If the operation panics on some query of the file: in no reachable state anything has been
+   written (in particular no output with a missing line), and every maximal run (a reachable state
+   without enabled action) has ended in the main thread's panic in the recv loop, for every j
+   (also 0) and every schedule. *)
+Theorem C15_worker_panic_propagates : forall (R : Type) (answer : mq_query -> R) panics rcmp rshow W j tr s,
+  some_panic panics W ->
+  mq_run R answer panics rcmp rshow true (mq_init R W j) tr s ->
+  mq_output s = None
+  /\ ((forall e s', ~ mq_step R answer panics rcmp rshow true s e s') -> mq_main s = PPanicked None).
+Proof. exact worker_panic_propagates_fixed. Qed.
+Print Assumptions C15_worker_panic_propagates.
+
+(* ... and from every reachable state such an end can be reached (maximal runs exist). *)
+Theorem C15_worker_panic_reaches_panic : forall (R : Type) (answer : mq_query -> R) panics rcmp rshow W j tr s,
+  some_panic panics W ->
+  mq_run R answer panics rcmp rshow true (mq_init R W j) tr s ->
+  exists tr' s', mq_run R answer panics rcmp rshow true s tr' s' /\ mq_main s' = PPanicked None.
+Proof. exact worker_panic_reaches_panic_fixed. Qed.
+Print Assumptions C15_worker_panic_reaches_panic.
+
+(* The outcome of every maximal run of the repaired function with j >= 1 workers is that of the
+   single-thread loop (C15_single_no_panic, C15_single_some_panic): all lines written and Ok(()), or
+   a panic; the multi-thread run panics before anything is written, the single-thread loop after the
+   lines that precede the first panicking query. *)
+Theorem C15_outcome : forall (R : Type) (answer : mq_query -> R) panics rcmp rshow W j tr s,
+  1 <= j ->
+  mq_file_order W ->
+  mq_run R answer panics rcmp rshow true (mq_init R W j) tr s ->
+  (forall e s', ~ mq_step R answer panics rcmp rshow true s e s') ->
+  (no_panic panics W /\ mq_main s = PJoined (mq_render_single answer rshow W))
+  \/ (some_panic panics W /\ mq_main s = PPanicked None).
+Proof. exact outcome_fixed. Qed.
+Print Assumptions C15_outcome.
+
+(* ---------- the single-thread loop ---------- *)
+
+(* Under no_panic it writes mq_render_single and returns. *)
 Theorem C15_single_no_panic : forall (R : Type) (answer : mq_query -> R) panics rshow W,
   no_panic panics W ->
   mq_single R answer panics rshow W = (mq_render_single answer rshow W, false).
 Proof. exact single_no_panic. Qed.
 Print Assumptions C15_single_no_panic.
 
-(* REFUTED outside no_panic: if the operation panics on one query (e.g. the literal -2147483648 in a
-   build with overflow checks, finding K6 of C13), the single-thread loop panics after the lines
-   before it, but with j workers the worker dies, its result never arrives, every other worker
-   leaves its loop, and the main thread is blocked in recv() for ever (it keeps its own Sender, so
-   the "All workers died unexpectedly" branch is unreachable): a reachable state with no enabled
-   action in which nothing has been written.  Reproduced on /repo: file "1\n-2147483648\n2",
-   debug build, count-queries or sat, j = 2 does not return. *)
+(* With a panicking query it panics. *)
+Theorem C15_single_some_panic : forall (R : Type) (answer : mq_query -> R) panics rshow W,
+  some_panic panics W ->
+  snd (mq_single R answer panics rshow W) = true.
+Proof. exact single_some_panic. Qed.
+Print Assumptions C15_single_some_panic.
+
+(* v0 (drop_tx = false, the code BEFORE repair F10) REFUTED outside no_panic: if the operation panics
+   on one query (e.g. the literal -2147483648 in a build with overflow checks, finding K6 of C13),
+   the single-thread loop panics after the lines before it, but with j workers the worker dies, its
+   result never arrives, every other worker leaves its loop, and the main thread is blocked in
+   recv() for ever (it keeps its own Sender, so the "All workers died unexpectedly" branch is
+   unreachable): a reachable state with no enabled action in which nothing has been written.
+   Reproduced on /repo before the repair: file "1\n-2147483648\n2", debug build, count-queries or
+   sat, j = 2 does not return.  C15_no_block is the opposite statement for the repaired system;
+   ex_worker_panic_fixed below replays the same schedule there. *)
 Theorem C15_worker_panic_blocks_refuted :
   exists s,
-    mq_run string ref_answer ref_panics ref_rcmp ref_show (mq_init string ref_W 2) ref_trace s
+    mq_run string ref_answer ref_panics ref_rcmp ref_show false (mq_init string ref_W 2) ref_trace s
     /\ mq_main s = PCollect 1
-    /\ (forall e, mq_valid_event string ref_answer ref_panics ref_rcmp ref_show s e = None)
+    /\ (forall e, mq_valid_event string ref_answer ref_panics ref_rcmp ref_show false s e = None)
     /\ mq_single string ref_answer ref_panics ref_show ref_W = (("1,7" ++ mq_nl)%string, true).
 Proof. exact worker_panic_blocks. Qed.
 Print Assumptions C15_worker_panic_blocks_refuted.
@@ -156,13 +238,13 @@ Definition ex_trace : list mq_event :=
   [EPull 0 0; EPull 1 1; ESend 1 1; EPull 1 2; ERecv 1; ESend 0 0; EPull 0 3; ESend 0 3; ERecv 0;
    ERecv 3; ESend 1 2; EPull 1 4; EPullNone 0; ERecv 2; ESend 1 4; ERecv 4; EWrite; EPullNone 1; EJoin]%nat.
 Example ex_run_out_of_order :
-  exists s, mq_run string ex_answer ex_nopanic ex_rcmp ex_show (mq_init string ex_W 2) ex_trace s
+  exists s, mq_run string ex_answer ex_nopanic ex_rcmp ex_show true (mq_init string ex_W 2) ex_trace s
             /\ map mq_idx (mq_results s) = [1; 0; 3; 2; 4]%nat
             /\ mq_main s = PJoined (mq_render_single ex_answer ex_show ex_W)
             /\ mq_render_single ex_answer ex_show ex_W
                = "1 -2,2" ++ mq_nl ++ ",0" ++ mq_nl ++ "1 -2,2" ++ mq_nl ++ "5 6 7 -8 9,5" ++ mq_nl ++ "3,1" ++ mq_nl.
 Proof.
-  destruct (mq_replay string ex_answer ex_nopanic ex_rcmp ex_show (mq_init string ex_W 2) ex_trace) as [s|] eqn:E;
+  destruct (mq_replay string ex_answer ex_nopanic ex_rcmp ex_show true (mq_init string ex_W 2) ex_trace) as [s|] eqn:E;
     [|vm_compute in E; discriminate].
   exists s. split; [apply replay_run; exact E|].
   vm_compute in E. injection E as <-. vm_compute. repeat split.
@@ -170,10 +252,10 @@ Qed.
 
 (* the hypotheses of C15_collect hold at a reachable state with PCollect 0 *)
 Example ex_collect_hyp :
-  exists tr s, mq_run string ex_answer ex_nopanic ex_rcmp ex_show (mq_init string ex_W 2) tr s /\ mq_main s = PCollect 0.
+  exists tr s, mq_run string ex_answer ex_nopanic ex_rcmp ex_show true (mq_init string ex_W 2) tr s /\ mq_main s = PCollect 0.
 Proof.
   exists (firstn 16 ex_trace).
-  destruct (mq_replay string ex_answer ex_nopanic ex_rcmp ex_show (mq_init string ex_W 2) (firstn 16 ex_trace)) as [s|] eqn:E;
+  destruct (mq_replay string ex_answer ex_nopanic ex_rcmp ex_show true (mq_init string ex_W 2) (firstn 16 ex_trace)) as [s|] eqn:E;
     [|vm_compute in E; discriminate].
   exists s. split; [apply replay_run; exact E|]. vm_compute in E. injection E as <-. reflexivity.
 Qed.
@@ -182,7 +264,7 @@ Qed.
    workers than queries *)
 Example ex_empty_file :
   mq_parse_file "" = Some []
-  /\ exists s, mq_run string ex_answer ex_nopanic ex_rcmp ex_show (mq_init string [] 3)
+  /\ exists s, mq_run string ex_answer ex_nopanic ex_rcmp ex_show true (mq_init string [] 3)
                  [EWrite; EPullNone 2; EPullNone 0; EPullNone 1; EJoin]%nat s
                /\ mq_main s = PJoined "".
 Proof.
@@ -191,9 +273,9 @@ Proof.
 Qed.
 
 Example ex_one_worker_and_many_workers :
-  (exists tr s, mq_run string ex_answer ex_nopanic ex_rcmp ex_show (mq_init string ex_W 1) tr s
+  (exists tr s, mq_run string ex_answer ex_nopanic ex_rcmp ex_show true (mq_init string ex_W 1) tr s
                 /\ mq_main s = PJoined (mq_render_single ex_answer ex_show ex_W))
-  /\ (exists tr s, mq_run string ex_answer ex_nopanic ex_rcmp ex_show (mq_init string ex_W 32) tr s
+  /\ (exists tr s, mq_run string ex_answer ex_nopanic ex_rcmp ex_show true (mq_init string ex_W 32) tr s
                 /\ mq_main s = PJoined (mq_render_single ex_answer ex_show ex_W)).
 Proof.
   split; apply terminates; try exact ex_file_order; try apply ex_no_panic; repeat constructor.
@@ -201,16 +283,46 @@ Qed.
 
 (* the canonical completion (used by the correspondence) reaches the end from the initial state *)
 Example ex_complete :
-  mq_output (mq_complete string ex_answer ex_nopanic ex_rcmp ex_show 100 (mq_init string ex_W 4))
+  mq_output (mq_complete string ex_answer ex_nopanic ex_rcmp ex_show true 100 (mq_init string ex_W 4))
   = Some (mq_render_single ex_answer ex_show ex_W).
 Proof. vm_compute. reflexivity. Qed.
 
-(* with j = 0 and a non-empty file the system is stuck in the initial state (the Rust blocks in
-   recv() for ever because the main thread keeps its own Sender alive); the CLI restricts --jobs to
-   1..=32 *)
-Example ex_zero_workers_stuck : forall e,
-  mq_valid_event string ex_answer ex_nopanic ex_rcmp ex_show (mq_init string ex_W 0) e = None.
-Proof. intros [w i|w|w i|i|w i| |]; try reflexivity; destruct w; reflexivity. Qed.
+(* with j = 0 and a non-empty file v0 is stuck in the initial state (the Rust blocked in recv() for
+   ever because the main thread kept its own Sender alive); the repaired code panics at once ("All
+   workers died unexpectedly": there is no Sender at all); the CLI restricts --jobs to 1..=32 *)
+Example ex_zero_workers_stuck_v0 : forall e,
+  mq_valid_event string ex_answer ex_nopanic ex_rcmp ex_show false (mq_init string ex_W 0) e = None.
+Proof. intros [w i|w|w i|i|w i| | | |w]; try reflexivity; destruct w; reflexivity. Qed.
+Example ex_zero_workers_panics :
+  exists s, mq_run string ex_answer ex_nopanic ex_rcmp ex_show true (mq_init string ex_W 0) [EClosed] s
+            /\ mq_main s = PPanicked None.
+Proof. eexists. split; [apply replay_run; vm_compute; reflexivity|reflexivity]. Qed.
+
+(* the schedule of C15_worker_panic_blocks_refuted in the repaired system: the same state is
+   reached; there the main-thread panic, and nothing else, is enabled *)
+Example ex_worker_panic_fixed :
+  exists s,
+    mq_run string ref_answer ref_panics ref_rcmp ref_show true (mq_init string ref_W 2) ref_trace s
+    /\ mq_main s = PCollect 1
+    /\ (forall e s', mq_valid_event string ref_answer ref_panics ref_rcmp ref_show true s e = Some s' ->
+                     e = EClosed /\ mq_main s' = PPanicked None)
+    /\ exists s', mq_valid_event string ref_answer ref_panics ref_rcmp ref_show true s EClosed = Some s'.
+Proof. exact worker_panic_fixed_example. Qed.
+
+(* the hypotheses of C15_worker_panic_propagates / C15_outcome (second case) are satisfiable, and
+   the canonical completion used by the correspondence ends in the panic, for j = 1, 2, 4 and 0 *)
+Example ex_some_panic : some_panic ref_panics ref_W.
+Proof. exists (1%nat, [-2147483648]%Z). split; [right; now left|reflexivity]. Qed.
+Example ex_complete_panics :
+  map (fun j => mq_main (mq_complete string ref_answer ref_panics ref_rcmp ref_show true 100 (mq_init string ref_W j)))
+      [1; 2; 4; 0]%nat
+  = [PPanicked None; PPanicked None; PPanicked None; PPanicked None].
+Proof. vm_compute. reflexivity. Qed.
+(* ... whereas v0 stops in the collect loop *)
+Example ex_complete_blocks_v0 :
+  mq_main (mq_complete string ref_answer ref_panics ref_rcmp ref_show false 100 (mq_init string ref_W 2))
+  = PCollect 1.
+Proof. vm_compute. reflexivity. Qed.
 
 (* sorting by the query instead of the index would not give the file order (sensitivity of the
    statement: the order by index is what makes it true) *)
